@@ -221,42 +221,82 @@ def check_adopted(ctx, rule_prefix="link"):
                     return True
                 srcs = value_sources(fn, e, at)
                 return bool(srcs) and all(k == "param" and pl == p for k, pl in srcs)
-            tests = [t for t in g.nodes if t.kind == "test" and isinstance(t.ast, ast.Call) and isinstance(t.ast.func, ast.Name)
-                     and t.ast.func.id == "isinstance" and len(t.ast.args) == 2 and is_p(t.ast.args[0], t)
-                     and "Config" in (ft.class_spec(t.ast.args[1], {}) or [])]
-            if not tests:
+            narrows = [x for x in ast.walk(fn.node) if isinstance(x, ast.Call) and isinstance(x.func, ast.Name) and x.func.id == "isinstance"
+                       and len(x.args) == 2 and is_p(x.args[0], None) and "Config" in (ft.class_spec(x.args[1], {}) or [])]
+            if not narrows:
                 continue
+            # the function specialised for "p is a configuration": whatever form the test takes (a branch, a flag computed
+            # earlier, an early exit), only the paths a configuration can take remain
+            from engine.specialize import Spec
+
+            def decide(e, node, sp, p=p):
+                if isinstance(e, ast.Call) and isinstance(e.func, ast.Name) and e.func.id == "isinstance" and len(e.args) == 2 and isinstance(e.args[0], ast.Name):
+                    x = e.args[0]
+                    if x.id != p:
+                        srcs = sp.sources(x, node) if sp.rd is not None else value_sources(fn, x, node)
+                        if not (srcs and all(k == "param" and pl == p for k, pl in srcs)):
+                            return None
+                    spec = ft.class_spec(e.args[1], {}) or []
+                    if "Config" in spec:
+                        return True
+                    if spec and all(s_ in ("dict", "list", "tuple", "str", "int", "float", "bool", "bytes", "set") for s_ in spec):
+                        return False
+                return None
+            sp = Spec(an, fn, decide)
+
+            def holds_p(e, at):
+                if not isinstance(e, ast.Name):
+                    return False
+                srcs = sp.sources(e, at)
+                return bool(srcs) and all(k == "param" and pl == p for k, pl in srcs)
+            def starts_from_p(e, at):
+                """where the value used at *at* can have come from p: the function entry (p itself) or the assignment that
+                copied p into the local that is used"""
+                if not isinstance(e, ast.Name):
+                    return []
+                out_ = []
+                for d in sp.rd.reaching(at, e.id):
+                    if d.node is not None and d.node not in sp.nodes:
+                        continue
+                    if d.kind == "param" and d.name == p:
+                        out_.append(g.entry)
+                    elif d.kind == "assign" and d.value is not None and holds_p(d.value, d.node):
+                        out_.append(d.node)
+                    elif d.kind == "unpack" and isinstance(d.value, (ast.Tuple, ast.List)) and d.index is not None and d.index < len(d.value.elts) \
+                            and holds_p(d.value.elts[d.index], d.node):
+                        out_.append(d.node)
+                return out_
             # uses: stored into _data, or handed back (proxy validators)
             uses = []
             for n in g.nodes:
+                if n not in sp.normal:
+                    continue
                 if n.kind == "assign" and isinstance(n.ast, ast.Assign) and any(
                         isinstance(t, ast.Subscript) and isinstance(t.value, ast.Attribute) and t.value.attr == "_data" for t in n.ast.targets):
-                    if isinstance(n.ast.value, ast.Name) and (any(k == "param" and pl == p for k, pl in value_sources(fn, n.ast.value, n))
-                                                              or n.ast.value.id == p):
+                    if starts_from_p(n.ast.value, n):
                         uses.append(("stored", n))
-                if n.kind == "return" and fn.name == "_validate" and isinstance(n.ast.value, ast.Name):
-                    srcs = value_sources(fn, n.ast.value, n)
-                    if any(k == "param" and pl == p for k, pl in srcs):
-                        uses.append(("handed to the container", n))
+                if n.kind == "return" and fn.name == "_validate" and n.ast.value is not None and starts_from_p(n.ast.value, n):
+                    uses.append(("handed to the container", n))
             wanted = ["_parent", "_key"] + (["_container"] if fn.name == "_validate" else [])
             for what, u in uses:
                 nsites += 1
                 for attr in wanted:
+                    used = u.ast.value
                     links = {m for m in g.nodes if m.kind == "assign" and isinstance(m.ast, ast.Assign) and any(
-                        isinstance(t, ast.Attribute) and t.attr == attr and isinstance(t.value, ast.Name) and (
-                            t.value.id == p or any(k == "param" and pl == p for k, pl in value_sources(fn, t.value, m))) for t in m.ast.targets)}
-                    redefs = {m for m in g.nodes if any(d.name == p for d in rd.defs_at.get(m, []))}
-                    # when the configuration travels under local names (inlined helpers), re-definitions of the parameter
-                    # are those of the name the use goes through
-                    if isinstance(getattr(u.ast, "value", None), ast.Name) and u.ast.value.id != p:
-                        redefs = set()
-                    # only paths on which p is a configuration: they take the True edge of one of the tests
+                        isinstance(t, ast.Attribute) and t.attr == attr and (holds_p(t.value, m) or (
+                            isinstance(t.value, ast.Name) and isinstance(used, ast.Name) and t.value.id == used.id and starts_from_p(t.value, m)))
+                        for t in m.ast.targets)}
+                    redefs = {m for m in g.nodes if any(d.name == used.id for d in rd.defs_at.get(m, []))} if isinstance(used, ast.Name) else set()
                     bad = None
-                    for t in tests:
-                        for s2, lbl in t.succ:
-                            if lbl is True and s2 not in links and s2 not in redefs:
-                                bad = bad or g.path(s2, lambda x, u=u: x is u, may_raise=lambda x: False,
-                                                    stop=lambda x: (x in links or x in redefs) and x is not u)
+                    for st in starts_from_p(used, u):
+                        # the link is made before the configuration is copied into the local, or between the copy and the use
+                        before = st is not g.entry and g.path(g.entry, lambda x, st=st: x is st, may_raise=lambda x: False,
+                                                              stop=lambda x, st=st: x in links and x is not st, edge_filter=sp.edge_ok) is None
+                        if before:
+                            continue
+                        after = g.path(st, lambda x, u=u: x is u, may_raise=lambda x: False, from_successors=st is not g.entry,
+                                       stop=lambda x, st=st: (x in links or (x in redefs and x is not st)) and x is not u, edge_filter=sp.edge_ok)
+                        bad = bad or after
                     ctx.ob("%s.adopted" % rule_prefix, fn, "%s.%s set before the configuration is %s" % (p, attr, what), bad is None,
                            "a configuration handed in is given %s before it is %s" % (attr, what) if bad is None else
                            "a configuration handed in by the caller is %s without %s being set: key files, error paths and item positions "
